@@ -171,30 +171,62 @@ def check_lookup_model(ctx):
     defaults = [tables.literal(d) for d in init.args.defaults]
     ctx.check(defaults == [None, None, "standard"], "C04:lookup:defaults",
               "defaults of sg.__init__ are %r" % (defaults,), where)
-    body = core.body_wo_doc(init)
-    top = body[0]
-    if not isinstance(top, ast.If):
-        raise AnalysisError("sg.__init__: first statement is not the sgno/sgname dispatch")
-    # The dispatch statement is evaluated (constant folding on concrete names / numbers, E3 string fragment) for
-    # every key of the dictionary in four spellings and for every number: semantic, so a tidy-up that keeps the
-    # behaviour passes and one that changes it for some spelling fails.
-    from xfabsa.symeval import Evaluator
-    dic = {k: v for k, v, _ln in tables.extract_sgdic()}
-
-    def dispatch(sgno, sgname, cell_choice):
-        ev = Evaluator(m, inline=set())
-        env = {"self": None, "sgno": sgno, "sgname": sgname, "cell_choice": cell_choice, "sgdic": dic}
-        ev.exec_stmt(top, env)
-        return env.get("klass_name"), env.get("cell_choice")
+    # sg.sg is evaluated (E7) for every number in both settings and for every key of the dictionary in five spellings:
+    # which table class it requests, with which cell_choice, and that the nine attributes come from that table object.
     from xfabsa.poly import Rat
-    badno = []
+    from xfabsa.symeval import Arr, RaiseReached
+    from xfabsa.objeval import ObjEvaluator, PyRaise, Sym, okey, exc_name_of
+    dic = {k: v for k, v, _ln in tables.extract_sgdic()}
+    node = ast.Constant(value=0)
+    node.lineno = init.lineno
+    requests = []
+
+    def ipol(name, args, kwargs, node_):
+        if name.startswith("xfab.sglib.Sg"):
+            cname = name.rsplit(".", 1)[1]
+            o = ev.new_obj("table:" + cname)
+            bound = dict(kwargs)
+            if args:
+                bound["cell_choice"] = args[0]
+            requests.append((cname, bound))
+            for a in tables.SG_ATTRS:
+                if a in ("syscond", "rot", "trans"):
+                    o.attrs[a] = [Rat.atom("%s@%d" % (a, i)) for i in range(2)]
+                else:
+                    o.attrs[a] = Sym("%s@" % a, "other")
+            return o
+        return NotImplemented
+    ev = ObjEvaluator(m, inline=set(), import_policy=ipol, max_depth=8)
+
+    def lookup(sgno, sgname, cell_choice):
+        """-> (class requested, cell_choice handed to it, attributes that are NOT the table's own) | ('<Error>', name, None)"""
+        del requests[:]
+        try:
+            o = ev.instantiate("sg", [], {"sgno": sgno, "sgname": sgname, "cell_choice": cell_choice}, node)
+        except (PyRaise, RaiseReached) as e:
+            return "<%s>" % exc_name_of(e), None, None
+        if len(requests) != 1:
+            return "<%d table objects>" % len(requests), None, None
+        cname, bound = requests[0]
+        wrong = []
+        for a in tables.SG_ATTRS:
+            got = o.attrs.get(a)
+            if a in ("syscond", "rot", "trans"):
+                G = got if isinstance(got, Arr) else None
+                ok = G is not None and [x.key() for x in G.flat()] == ["%s@%d" % (a, i) for i in range(2)]
+            else:
+                ok = isinstance(got, Sym) and got.name == "%s@" % a
+            if not ok:
+                wrong.append(a)
+        return cname, bound.get("cell_choice", "<default>"), wrong
+    badno, badcopy = [], {}
     for n_ in range(1, 231):
-        got = dispatch(Rat.const(n_), None, "standard")
-        if got != ("Sg%d" % n_, "standard"):
-            badno.append((n_, got))
-        got = dispatch(Rat.const(n_), None, "rhombohedral")
-        if got != ("Sg%d" % n_, "rhombohedral"):
-            badno.append((n_, got))
+        for cc in ("standard", "rhombohedral"):
+            got = lookup(Rat.const(n_), None, cc)
+            if got[:2] != ("Sg%d" % n_, cc):
+                badno.append((n_, cc, got[:2]))
+            for a in got[2] or []:
+                badcopy.setdefault(a, (n_, cc))
     okno = ctx.check(not badno, "C04:lookup:by-number", "by-number look-up does not give ('Sg<n>', the caller's cell_choice): %s" % badno[:2], where)
     badname, badr = [], []
     nvar = 0
@@ -202,49 +234,26 @@ def check_lookup_model(ctx):
         spaced = " ".join(key)
         for spelling in (key, key.upper(), key.capitalize(), spaced, " " + key[:1].upper() + key[1:] + " "):
             nvar += 1
-            try:
-                got = dispatch(None, spelling, "standard")
-            except AnalysisError as e:
-                if "not in the modelled dictionary" in str(e):
-                    got = ("<KeyError>", None)
-                else:
-                    raise
+            got = lookup(None, spelling, "standard")
             want_cc = "rhombohedral" if (key[0] == "r" and key[-1] == "r") else "standard"
             if got[0] != cname:
                 badname.append((spelling, got[0]))
             elif got[1] != want_cc:
                 badr.append((spelling, got[1]))
+            for a in got[2] or []:
+                badcopy.setdefault(a, (spelling,))
     ctx.extra["name_spellings_evaluated"] = nvar
     okname = ctx.check(not badname, "C04:lookup:by-name",
                        "by-name look-up does not resolve white-space / case variants to sgdic[normalised name]: %s" % badname[:3], where,
                        sample={"spellings_evaluated": nvar, "example": ["R -3 C R", "r-3cr", "R-3cr"]})
     okr = ctx.check(not badr, "C04:lookup:r-suffix",
                     "cell_choice is not 'rhombohedral' exactly when the normalised name starts and ends with 'r': %s" % badr[:3], where)
-    # the class is taken from xfab.sglib by name and instantiated with cell_choice=cell_choice
-    inst = [n for n in ast.walk(init) if isinstance(n, ast.Call) and isinstance(n.func, ast.Name) and n.func.id == "klass"]
-    okinst = (len(inst) == 1 and not inst[0].args and len(inst[0].keywords) == 1
-              and inst[0].keywords[0].arg == "cell_choice"
-              and isinstance(inst[0].keywords[0].value, ast.Name) and inst[0].keywords[0].value.id == "cell_choice")
-    ctx.check(okinst, "C04:lookup:instantiate", "class is not instantiated as klass(cell_choice=cell_choice)", where)
-    getk = [n for n in ast.walk(init) if isinstance(n, ast.Call) and isinstance(n.func, ast.Name)
-            and n.func.id == "getattr" and len(n.args) == 2 and isinstance(n.args[1], ast.Name)
-            and n.args[1].id == "klass_name"]
-    ctx.check(len(getk) == 1, "C04:lookup:getattr", "class is not fetched with getattr(module, klass_name)", where)
-    # attribute copies
-    copied = {}
-    for st in ast.walk(init):
-        if isinstance(st, ast.Assign) and isinstance(st.targets[0], ast.Attribute) \
-                and isinstance(st.targets[0].value, ast.Name) and st.targets[0].value.id == "self":
-            v = st.value
-            if isinstance(v, ast.Call) and isinstance(v.func, ast.Attribute) and v.func.attr in ("array", "asarray") \
-                    and len(v.args) == 1:
-                v = v.args[0]
-            if isinstance(v, ast.Attribute) and isinstance(v.value, ast.Name) and v.value.id == "obj":
-                copied[st.targets[0].attr] = v.attr
+    none = lookup(None, None, "standard")
+    ctx.check(none[0].startswith("<"), "C04:lookup:neither", "sg.sg() without number and name does not raise (%s)" % (none[:2],), where)
     for a in tables.SG_ATTRS:
-        ctx.check(copied.get(a) == a, "C04:lookup:copy:%s" % a,
-                  "sg.%s is not copied from the table's %s (got %r)" % (a, a, copied.get(a)), where)
-    return okno and okname and okr and okinst
+        ctx.check(a not in badcopy, "C04:lookup:copy:%s" % a,
+                  "sg.%s is not copied from the requested table object's %s (e.g. for %s)" % (a, a, badcopy.get(a)), where)
+    return okno and okname and okr
 
 
 def run(ctx):
